@@ -4,7 +4,7 @@ pub mod anchor_shim {
 use vstd::prelude::*;
 use crate::errors::ErrorCode;
 //@ assume anchor_lang shim: Pubkey is 32 opaque bytes with structural equality and an uninterpreted total order; anchor Error carries only the ErrorCode; Account<T> derefs to T
-#[derive(Clone, Copy, PartialEq, Eq)]
+#[derive(Clone, Copy, PartialEq, Eq, Structural)]
 pub struct Pubkey(pub [u8; 32]);
 pub uninterp spec fn pk_lt(a: Pubkey, b: Pubkey) -> bool;
 pub uninterp spec fn pk_default() -> Pubkey;
